@@ -67,10 +67,30 @@ def write_tree(pkgs, base):
                 lines.append(f'{d} = "1.0"')
         open(p.root + "/gleam.toml", "w").write("\n".join(lines) + "\n")
         for path, (mod, text) in p.files.items():
-            os.makedirs(os.path.dirname(path), exist_ok=True)
-            open(path, "w").write(text)
+            # some modules are reached through a symbolic link below src/ or test/ (a linked file, or a linked directory):
+            # the layout is the same, the module is importable under the same name
+            how = _LINK_RNG.random()
+            store = f"{base}/store/{p.name}-{abs(hash(path)) % 100000}"
+            rel = path[len(p.root) + 1:].split("/")        # src|test, segs..., file
+            if how < 0.15 and not os.path.lexists(path):
+                os.makedirs(os.path.dirname(path), exist_ok=True)
+                os.makedirs(store, exist_ok=True)
+                open(f"{store}/{rel[-1]}", "w").write(text)
+                os.symlink(f"{store}/{rel[-1]}", path)
+            elif how < 0.3 and len(rel) >= 3 and not os.path.lexists(f"{p.root}/{rel[0]}/{rel[1]}"):
+                os.makedirs(f"{p.root}/{rel[0]}", exist_ok=True)
+                real = store + "/" + "/".join(rel[2:])
+                os.makedirs(os.path.dirname(real), exist_ok=True)
+                open(real, "w").write(text)
+                os.symlink(store, f"{p.root}/{rel[0]}/{rel[1]}")
+            else:
+                os.makedirs(os.path.dirname(path), exist_ok=True)
+                open(path, "w").write(text)
     os.makedirs(base + "/loose", exist_ok=True)
     open(base + "/loose/free.gleam", "w").write("pub fn lonely() { 1 }\n")
+
+
+_LINK_RNG = random.Random(0)
 
 
 def innermost(pkgs, path):
@@ -89,6 +109,7 @@ def run_c17(res, tier, seed):
     reqs, meta = [], []
     trees = []
     try:
+        _LINK_RNG.seed(seed * 31 + 5)
         for t in range(n_trees):
             tb = f"{base}/t{t}"
             pkgs = gen_tree(rng, tb)
